@@ -26,8 +26,14 @@ func (source *SR) NewTransform(dest *SR) (Transformer, error) {
 		return nil, nil
 	}
 
+	// The projection constructors fill defaults (a missing second parallel,
+	// scale factor, zone meridian, ...) into the reference they are given.
+	// Work on private copies, so that building or calling a Transformer does
+	// not change the caller's references: a reference changed in that way no
+	// longer compares Equal to a fresh parse of the same definition.
+	src, dst := *source, *dest
 	return func(x, y float64) (float64, float64, error) {
-		x, y, _, err := transform(source, dest, x, y, 0)
+		x, y, _, err := transform(&src, &dst, x, y, 0)
 		return x, y, err
 	}, nil
 }
